@@ -13,6 +13,12 @@
 //! result (lex): `RULES r;r;… # STATES id:excl,… # N <len> # BD <boundaries> # MT <row;row;…> # LEX <items>`
 //!     r    = `<name hex|->,<tok|->,<s.s|->,<target>` (after set_rule_ids)
 //!     row  = `<pos>:<len> …` matches of `\A(?:re_str)` on `&input[pos..]` for every char boundary pos
+//!   between MT and LEX two more sections (the look-behind finding):
+//!     `# MW row;row;…`  the WHOLE-TEXT table: what re_str (same builder flags, no `\A` wrapper) denotes at
+//!                       pos of the input = `find_at(input, pos)` restricted to matches that start at pos
+//!     `# LB b b …`      per rule 1 iff the HIR of re_str contains an assertion that looks at the text
+//!                       BEFORE the position (Start, StartLF, StartCRLF, every Word* but the two
+//!                       WordEndHalf*), else 0 (`E`: the HIR could not be built)
 //!     item = `L <tok> <start> <len>` | `E <pos> <lexing state|->`
 //! result (ids): `RULES … # MAP … # OUT <tok|-> … ; <missing_from_lexer|NONE> ; <missing_from_parser|NONE> # OUT2 …`
 //!     (OUT: set_rule_ids_spanned, OUT2: set_rule_ids, sets sorted)
@@ -68,7 +74,45 @@ fn parse_flags(s: &str) -> Flags {
 /// octal / multi_line / dot_matches_new_line always set (grmtools defaults
 /// true), the others only when given.
 fn reference_regex(re_str: &str, f: &Flags) -> Result<regex::Regex, regex::Error> {
-    let mut b = regex::RegexBuilder::new(&format!("\\A(?:{})", re_str));
+    build_regex(&format!("\\A(?:{})", re_str), f)
+}
+
+/// What the written regex denotes: the same builder options, no `\A(?:..)` wrapper.
+fn written_regex(re_str: &str, f: &Flags) -> Result<regex::Regex, regex::Error> {
+    build_regex(re_str, f)
+}
+
+/// Does the written regex contain an assertion whose truth depends on the text before the
+/// position?  Decided on regex_syntax's HIR (same syntax flags as the regex builder applies).
+fn looks_behind(re_str: &str, f: &Flags) -> Option<bool> {
+    use regex_syntax::hir::Look;
+    let mut b = regex_syntax::ParserBuilder::new();
+    b.octal(f.octal.unwrap_or(true))
+        .multi_line(f.multi_line.unwrap_or(true))
+        .dot_matches_new_line(f.dot_matches_new_line.unwrap_or(true));
+    if let Some(x) = f.ignore_whitespace {
+        b.ignore_whitespace(x);
+    }
+    if let Some(x) = f.unicode {
+        b.unicode(x);
+    }
+    if let Some(x) = f.case_insensitive {
+        b.case_insensitive(x);
+    }
+    if let Some(x) = f.swap_greed {
+        b.swap_greed(x);
+    }
+    let hir = b.build().parse(re_str).ok()?;
+    Some(hir.properties().look_set().iter().any(|l| {
+        !matches!(
+            l,
+            Look::End | Look::EndLF | Look::EndCRLF | Look::WordEndHalfAscii | Look::WordEndHalfUnicode
+        )
+    }))
+}
+
+fn build_regex(pattern: &str, f: &Flags) -> Result<regex::Regex, regex::Error> {
+    let mut b = regex::RegexBuilder::new(pattern);
     b.octal(f.octal.unwrap_or(true))
         .multi_line(f.multi_line.unwrap_or(true))
         .dot_matches_new_line(f.dot_matches_new_line.unwrap_or(true));
@@ -294,6 +338,50 @@ fn do_lex(mut def: Def, flags: Flags, rest: &[&str]) -> String {
     }
     if def.iter_rules().next().is_none() {
         o.push('-');
+    }
+    // the whole-text table: the written regex searched in the WHOLE input from pos on; leftmost-first
+    // semantics make a match that starts at pos the anchored match at pos
+    o.push_str(" # MW ");
+    for (i, r) in def.iter_rules().enumerate() {
+        if i > 0 {
+            o.push(';');
+        }
+        let re = match written_regex(r.re_str(), &flags) {
+            Ok(re) => re,
+            Err(_) => {
+                o.push_str("REFERR");
+                continue;
+            }
+        };
+        let mut first = true;
+        for &p in &bounds {
+            if let Some(m) = re.find_at(&input, p) {
+                if m.start() == p {
+                    if !first {
+                        o.push(' ');
+                    }
+                    first = false;
+                    write!(o, "{}:{}", p, m.end() - p).unwrap();
+                }
+            }
+        }
+        if first {
+            o.push('-');
+        }
+    }
+    if def.iter_rules().next().is_none() {
+        o.push('-');
+    }
+    o.push_str(" # LB");
+    for r in def.iter_rules() {
+        o.push_str(match looks_behind(r.re_str(), &flags) {
+            Some(true) => " 1",
+            Some(false) => " 0",
+            None => " E",
+        });
+    }
+    if def.iter_rules().next().is_none() {
+        o.push_str(" -");
     }
     // the implementation
     let r = catch(std::panic::AssertUnwindSafe(|| {
